@@ -35,3 +35,18 @@ Definition op_pre (cfg : list ccfg) (f : loc -> val) (co : col * op) : Prop :=
 Definition tx_pre (cfg : list ccfg) (f : loc -> val) (t : tx) : Prop := Forall (op_pre cfg f) t.
 Definition step_pre (cfg : list ccfg) (f : loc -> val) (st : step) : Prop :=
   match st with SCommit t => tx_pre cfg f t | _ => True end.
+
+(* ---- reference counts (C07): starts at zero, raised by every set and by every reference to a
+   present key, lowered by every dereference of a present key; references and dereferences of an
+   absent key are ignored ---- *)
+Definition cnt_op (n : N) (o : op) : N :=
+  match o with
+  | OSet _ _ => n + 1
+  | ORef _ => if 0 <? n then n + 1 else 0
+  | ODeref _ => if 0 <? n then n - 1 else 0
+  end.
+Definition cmap := loc -> N.
+Definition cnt_step (M : cmap) (co : col * op) : cmap :=
+  fun l => if loc_eqb (fst co, op_key (snd co)) l then cnt_op (M l) (snd co) else M l.
+Definition cnt_tx (M : cmap) (t : tx) : cmap := fold_left cnt_step t M.
+Definition cnt_txs (M : cmap) (ts : list tx) : cmap := fold_left cnt_tx ts M.
